@@ -56,14 +56,16 @@ enum CallId : int {
   K_DIFF_WRT_VIEW = 37,           // mutating: diff::dr<1|2, Numerical>(f, wrt(view)) perturbs its argument in place and steps back:
                                   //   results and the coefficients left behind equal those for a value object
   K_MINIMIZE_WRT_VIEW = 38,       // mutating: minimize(f, wrt(view)): the view ends where a value object ends
-  K_NCALLS = 39
+  K_FREE_FUNCTIONS = 39,          // non-mutating: the free functions of the concept layer with views as arguments
+                                  //   composition(v, s, s...), composition(s, v, s), rplus(v, a), log(v), Ad(v), inverse(v), dof(v)
+  K_NCALLS = 40
 };
 
 inline const char* const kCallNames[K_NCALLS] = {
   "setIdentity", "assign_from", "mul_assign", "plus_assign", "coeffs_write_one", "data_write_one", "coeffs_assign_all",
   "copy_view_setIdentity", "map_assign_map", "part_assign", "part_reset", "part_update", "part_raw_write", "construct_into",
   "inverse", "log", "Ad", "matrix", "compose", "rminus", "rplus", "isApprox", "to_value", "cast", "part_read", "action",
-  "coeffs_read", "part_const_ops", "assign_from_temp_view", "value_from_temp_view", "part_to_value", "part_from_temp_view", "map_move_assign", "setRandom", "helpers", "moved_view_write", "rvalue_view_ops", "diff_wrt_view", "minimize_wrt_view"};
+  "coeffs_read", "part_const_ops", "assign_from_temp_view", "value_from_temp_view", "part_to_value", "part_from_temp_view", "map_move_assign", "setRandom", "helpers", "moved_view_write", "rvalue_view_ops", "diff_wrt_view", "minimize_wrt_view", "free_functions"};
 
 inline bool call_mutates(int id) { return id <= K_CONSTRUCT_INTO || id == K_ASSIGN_FROM_TEMP_VIEW || id == K_PART_FROM_TEMP_VIEW ||
          id == K_MAP_MOVE_ASSIGN || id == K_SET_RANDOM || id == K_MOVED_VIEW_WRITE || id == K_DIFF_WRT_VIEW ||
